@@ -81,6 +81,47 @@ CHECKS["C05"] = dict(
          "whose own totality is part of C06/C07's tasks.",
     technique=_T)
 
+CHECKS["C08"] = dict(
+    category="proof",
+    text="Per country with published positions (119): the real IBAN.generate is symbolically executed over three cleaned "
+         "components of SYMBOLIC length and arbitrary content; every path is compared with the placement spec written "
+         "from the property: components fit => each field equals the zero-padded component, all other positions are "
+         "'0', the result is a valid IBAN (Accept_K) and its national digits satisfy the published rule; a component "
+         "longer than its field => that component's error class; combined-width bank code + explicit branch => "
+         "library error; any non-library exception is a refuted obligation. Countries without positions / unknown: "
+         "library error.",
+    design_ref="DESIGN.md C08",
+    note="Trusted: pyvc encoding incl. the model of str.zfill, regex compiler, z3/cvc5. Components are the cleaned "
+         "texts (Clean is C10). Helper contracts as in C06.",
+    technique=_T)
+CHECKS["C09"] = dict(
+    category="proof",
+    text="(i) for the 19 countries with a computed national field every IBAN returned by the real generate satisfies "
+         "the independent national spec (obligation of the generate tasks); (ii) per country with positions: for every "
+         "nationally valid structure-conforming BBAN b, the real BBAN.from_components(components read off b) equals b "
+         "at every component position and never raises.",
+    design_ref="DESIGN.md C09",
+    note="as C08/C06; random draws are connected through C13 (they funnel through from_components).",
+    technique=_T)
+CHECKS["C10"] = dict(
+    category="proof",
+    text="clean's body is proved (structurally, opaque string) to be upper(sub(ws+,'',s)); the character-level facts "
+         "(class of the live pattern = \\s, upper images are fixed points, no whitespace produced) are decided by "
+         "exhaustive enumeration of all 1,114,112 code points; Clean's invariance under whitespace insertion / case "
+         "change and idempotence are Lean theorems for arbitrary ws/up; constructors are proved to read the raw text "
+         "only through clean; formatted is proved per length against the grouping spec.",
+    design_ref="DESIGN.md C10, lemmas/C10.lean",
+    note="Assumed: Pattern.sub removes exactly the class characters; str.upper is per-character (both probed). "
+         "formatted for invalid objects is bounded in length (<= 36 quick / 64 thorough).",
+    technique="contract-based deductive verification (pyvc, z3) + exhaustive enumeration of finite tables + Lean 4 lemmas")
+CHECKS["C11"] = dict(
+    category="proof",
+    text="Per country: for every structure-conforming text of the country's length (superset of accepted IBANs) all "
+         "accessors of IBAN and BBAN are proved equal to the published BBAN substrings (or ''), cc+dd+bban = compact, "
+         "positions disjoint; for every accepted x, from_bban(x.country_code, x.bban) = x; BIC parts for lengths 8/11.",
+    design_ref="DESIGN.md C11", note="as C01; published positions = the effective table (consistency: C17).",
+    technique=_T)
+
 NOT_YET = {}
 
 ALL = [f"C{i:02d}" for i in range(1, 19)]
